@@ -123,6 +123,13 @@ class PROP(PropCheck):
                 cls, src = "gen", g.program(rng.randint(1, 3))
             out.append(self.mk(cls, src, rng.choice(MODES), rng.choice(DEBUGS), rng.random() < 0.15,
                                rng.choice(["", "", "ann\nbob\n", "x"])))
+        # the real binary has no statement budget: generated programs go to it only when the budgeted harness (hook H2) shows that
+        # they end (normally or with a diagnostic) within the budget; the rest are dropped before any comparison
+        gen = [c for c in out if c.meta["cls"] == "gen"]
+        if gen:
+            res = C.run_harness("run", [(c.src, {}) for c in gen], 4000, 120, tag="C12pre")
+            bad = set(id(c) for c, r in zip(gen, res) if r is None or r.startswith(("BUDGET", "ABORT")))
+            out = [c for c in out if id(c) not in bad]
         return out
 
     def model_expr(self, case):
